@@ -9,7 +9,7 @@ from concurrent.futures import ThreadPoolExecutor
 VERIF = os.path.dirname(os.path.dirname(os.path.abspath(__file__)))
 GUARD = "LIBERASURECODE_VERIF"
 
-WRAP_SYMS = ["malloc", "calloc", "realloc", "free", "posix_memalign", "strdup",
+WRAP_SYMS = ["malloc", "calloc", "realloc", "free", "posix_memalign", "strdup", "dlsym", "dlopen",
              "pthread_rwlock_rdlock", "pthread_rwlock_wrlock", "pthread_rwlock_unlock",
              "pthread_rwlock_tryrdlock", "pthread_rwlock_trywrlock",
              "pthread_mutex_lock", "pthread_mutex_unlock", "pthread_mutex_trylock"]
